@@ -8,6 +8,9 @@ def run(eng, lib, name, tier="quick"):
     if name == "shard":
         from props import shard
         return shard.run(eng, lib, tier)
+    if name == "crosscheck":
+        from props import crosscheck
+        return crosscheck.run(eng, lib, tier)
     if name == "client":
         from props import client
         return client.run(eng, lib, tier)
